@@ -64,6 +64,8 @@ type c14world struct {
 	fevents []c14ev
 	cbs     []*c14cb
 
+	unreachSince time.Duration // since when the partner has been continuously unreachable (crashed or cut off); -1: reachable
+	detectBound  time.Duration // within this time an unreachable partner is reported down (threshold+1 probes, one timeout, slack)
 	forcePending bool   // ForceFailover returned nil and the controller has not been back at rest (standby, normal) since
 	forceCtx     string // controller state when the last successful ForceFailover was issued
 	cbFailNext   int
@@ -147,6 +149,10 @@ func (w *c14world) onCallback(newRole ha.Role) error {
 		if down, at := w.partnerReportedDownBefore(cb.start); down {
 			c.Fail("failback-partner-healthy", "failback/partner-reported-down",
 				"failback role change to %s is being carried out at %v although the partner has been reported down since %v (no partner_up since)", newRole, cb.start, at)
+		} else if w.unreachSince >= 0 && cb.start-w.unreachSince >= w.detectBound {
+			// ground truth, for when the reports themselves are what is broken
+			c.Fail("failback-partner-healthy", "failback/partner-unreachable",
+				"failback role change to %s is being carried out at %v although the partner has not answered a probe since %v (longer than %v = (failure threshold + 1) probe intervals + one probe timeout + 2 s)", newRole, cb.start, w.unreachSince, w.detectBound)
 		}
 	}
 	if w.cbSlowNext > 0 {
@@ -350,6 +356,9 @@ func c14Gen(r *sim.Rand, tier string) *sim.Case {
 		cs.Knobs["fbdelay_s"] = int64(sim.Pick(r, 10, 30))
 		cs.Knobs["grace_s"] = int64(sim.Pick(r, 0, 1, 5))
 		cs.Knobs["failback"] = int64(sim.Pick(r, 1, 1, 1, 0))
+		// delays need not be whole multiples of the probe interval or of the controller's 1 s tick
+		cs.Knobs["fbd_extra_ms"] = int64(sim.Pick(r, 0, 0, 500, 300, 700))
+		cs.Knobs["fd_extra_ms"] = int64(sim.Pick(r, 0, 0, 0, 500))
 	}
 	cs.Knobs["lat_us"] = int64(sim.Pick(r, 100, 300, 20000))
 	switch cs.Variant {
@@ -403,7 +412,7 @@ func c14Gen(r *sim.Rand, tier string) *sim.Case {
 
 func c14Run(c *sim.Ctx) {
 	cs := c.Case
-	w := &c14world{c: c, inProgSince: -1, lastRole: ha.RoleStandby}
+	w := &c14world{c: c, inProgSince: -1, lastRole: ha.RoleStandby, unreachSince: -1}
 	n := newVHNet(c)
 	w.net = n
 	n.BaseLat = time.Duration(cs.Knob("lat_us", 300)) * time.Microsecond
@@ -416,8 +425,8 @@ func c14Run(c *sim.Ctx) {
 		w.hcfg.Timeout = time.Duration(cs.Knob("timeout_s", 3)) * time.Second
 		w.hcfg.FailureThreshold = int(cs.Knob("fthr", 3))
 		w.hcfg.RecoveryThreshold = int(cs.Knob("rthr", 2))
-		w.fcfg.FailoverDelay = time.Duration(cs.Knob("fdelay_s", 10)) * time.Second
-		w.fcfg.FailbackDelay = time.Duration(cs.Knob("fbdelay_s", 30)) * time.Second
+		w.fcfg.FailoverDelay = time.Duration(cs.Knob("fdelay_s", 10))*time.Second + time.Duration(cs.Knob("fd_extra_ms", 0))*time.Millisecond
+		w.fcfg.FailbackDelay = time.Duration(cs.Knob("fbdelay_s", 30))*time.Second + time.Duration(cs.Knob("fbd_extra_ms", 0))*time.Millisecond
 		w.fcfg.GracePeriod = time.Duration(cs.Knob("grace_s", 5)) * time.Second
 		w.fcfg.FailbackEnabled = cs.Knob("failback", 1) == 1
 	}
@@ -471,6 +480,7 @@ func c14Run(c *sim.Ctx) {
 		}
 	})
 
+	w.detectBound = time.Duration(w.hcfg.FailureThreshold+1)*w.hcfg.CheckInterval + w.hcfg.Timeout + 2*time.Second
 	iv, thr := w.hcfg.CheckInterval, time.Duration(w.hcfg.FailureThreshold)
 	fd, fbd, gp := w.fcfg.FailoverDelay, w.fcfg.FailbackDelay, w.fcfg.GracePeriod
 	bases := []time.Duration{time.Second, iv, thr * iv, thr*iv + fd - iv, thr*iv + fd, thr*iv + fd + iv, fd, fd + gp, gp,
@@ -487,6 +497,9 @@ func c14Run(c *sim.Ctx) {
 		}
 		switch op.K {
 		case "down":
+			if w.unreachSince < 0 {
+				w.unreachSince = c.S.Now()
+			}
 			switch op.Arg(0) % 3 {
 			case 0, 1:
 				if !partition {
@@ -508,6 +521,7 @@ func c14Run(c *sim.Ctx) {
 			if w.partnerNode.Dead() {
 				w.startPartner()
 			}
+			w.unreachSince = -1
 		case "sleep":
 			d := bases[int(op.Arg(0))%len(bases)] + jit[int(op.Arg(1))%len(jit)]
 			if d < 100*time.Millisecond {
@@ -582,12 +596,13 @@ func init() {
 		Real: []string{"ha.FailoverController (handleHealthEvent, executeFailover, executeFailback, evaluateState control loop, ForceFailover/ForceFailback, both AfterFunc timers)",
 			"ha.HealthMonitor (monitorLoop, performCheck, thresholds, event emission)", "ha.HASyncer.handleHealth on the partner", "net/http.Client timeouts"},
 		Stub: []string{"network between the nodes (scn.vhNet)", "role-change callback (harness: ok / error / slow per case and tape)"},
-		Rule: "cases: 4-24 ops {partner down (partition: probes time out | crash: probes refused), up, sleep around threshold*interval, failover delay +-1 probe, grace, failback delay, lost probes, ForceFailover, ForceFailback, callback fail/slow, and a motif promote -> partner recovers -> partner fails inside the failback grace} over default and varied Health/Failover configs, then a settle period; non-trivial = >=3 completed operations and (a fault fired or >2 context switches); distinct = distinct (case hash, schedule fingerprint)",
+		Rule: "cases: 4-24 ops {partner down (partition: probes time out | crash: probes refused), up, sleep around threshold*interval, failover delay +-1 probe, grace, failback delay, lost probes, ForceFailover, ForceFailback, callback fail/slow, and a motif promote -> partner recovers -> partner fails inside the failback grace} over default and varied Health/Failover configs (delays with sub-second parts, so that reports, controller ticks and timers do not all fall on one instant), then a settle period; non-trivial = >=3 completed operations and (a fault fired or >2 context switches); distinct = distinct (case hash, schedule fingerprint)",
 		QuickRuns:    6000,
 		ThoroughRuns: 300000,
 		Assumptions: []string{"a promotion is forced when a ForceFailover call returned nil and the controller has not been observed at rest (role standby, state normal) since; only unforced promotions are held to the sustained-failure clause",
 			"partner reported down/up = the HealthMonitor's partner_down/partner_up events; a recovery exactly at the instant the delay expires may go either way",
 			"a failback 'happens' when the role-change callback for the original role is invoked; it violates the clause when the last partner_up/down event strictly before that instant is partner_down",
-			"in_progress is stuck when State() stays in_progress longer than failover delay + grace period + callback time + 2 s"},
+			"in_progress is stuck when State() stays in_progress longer than failover delay + grace period + callback time + 2 s",
+			"ground truth for the failback clause: a partner that has not answered a probe (crashed or cut off) for (failure threshold + 1) probe intervals + one probe timeout + 2 s is not healthy, whatever was reported"},
 	})
 }
